@@ -93,7 +93,8 @@ def same_values(a, b):
     if a.shape != b.shape or a.dtype.kind != b.dtype.kind:
         return False
     if a.dtype.kind == "f":
-        return bool(np.array_equal(a, b, equal_nan=True)) and bool(np.array_equal(np.signbit(a), np.signbit(b)))
+        nn = ~np.isnan(a)  # NaN == NaN whatever its sign/payload; -0.0 and 0.0 are told apart
+        return bool(np.array_equal(a, b, equal_nan=True)) and bool(np.array_equal(np.signbit(a)[nn], np.signbit(b)[nn]))
     return bool(np.array_equal(a, b))
 
 
